@@ -165,14 +165,28 @@ var (
 var qPlain = QuoteFn{Name: "plain", F: func(s string) (Quoted, bool) { return Quoted{Text: s, Value: s}, true }}
 
 // Ctx is a context template: the hostile string is embedded in a value whose *shape* may steer a planner branch.
-type Ctx struct{ Name, Pre, Suf string }
+// Meta: the payload is written regex-quoted (regexp.QuoteMeta) - a recogniser that keys on the literal-ness of the
+// parsed regex sees the payload's bytes as one literal even when they contain regex syntax.
+// Core: kept at secondary sites in the quick tier (the shapes recognisers are most likely to look for).
+type Ctx struct {
+	Name, Pre, Suf string
+	Meta, Core     bool
+}
 
 // withCtx quotes Pre+s+Suf and remembers what the front end reads for s itself.
 func withCtx(q QuoteFn, c Ctx) QuoteFn {
-	if c.Pre == "" && c.Suf == "" {
+	if c.Pre == "" && c.Suf == "" && !c.Meta {
 		return q
 	}
-	return QuoteFn{Name: q.Name, Only: q.Only, F: func(s string) (Quoted, bool) {
+	only := q.Only
+	if c.Meta {
+		// identical to the raw form unless the payload contains regex syntax
+		only = func(s string) bool { return regexp.QuoteMeta(s) != s && (q.Only == nil || q.Only(s)) }
+	}
+	return QuoteFn{Name: q.Name, Only: only, F: func(s string) (Quoted, bool) {
+		if c.Meta {
+			s = regexp.QuoteMeta(s)
+		}
 		b, ok := q.F(c.Pre + s + c.Suf)
 		if !ok {
 			return Quoted{}, false
@@ -186,29 +200,53 @@ func withCtx(q QuoteFn, c Ctx) QuoteFn {
 	}}
 }
 
-var idCtx = Ctx{"", "", ""}
+var idCtx = Ctx{Name: ""}
 
-// regexCtxs: for positions whose value is a regular expression.
-var regexCtxs = []Ctx{
-	idCtx,
-	{"anchored", "^", "$"},
-	{"anchored_alt_last", "^(a|", ")$"},
-	{"anchored_noncapture_alt_first", "^(?:", "|b)$"},
-	{"group", "(", ")"},
-	{"fold", "(?i)", ""},
-	{"prefix_of_any", "", ".*"},
-	{"suffix_of_any", ".*", ""},
-	{"bare_alt", "a|", ""},
-	{"literal_affixes", "ab", "cd"},
-	{"escaped_literal", `a\.`, ""},
-}
+// regexCtxs: for positions whose value is a regular expression - the shapes a planner may recognise and rewrite
+// (substring / prefix / suffix / exact searches, case folding, groups, alternations, classes), each with the payload
+// raw and regex-quoted.  regexRecognisers (scan.go) lists what the planners of the tree look for today.
+var regexCtxs = func() []Ctx {
+	base := []Ctx{
+		idCtx,
+		{Name: "contains", Pre: ".*", Suf: ".*", Core: true},
+		{Name: "anchored", Pre: "^", Suf: "$", Core: true},
+		{Name: "anchored_alt_last", Pre: "^(a|", Suf: ")$", Core: true},
+		{Name: "fold", Pre: "(?i)", Core: true},
+		{Name: "prefix_of_any", Suf: ".*", Core: true},
+		{Name: "suffix_of_any", Pre: ".*"},
+		{Name: "anchored_start", Pre: "^"},
+		{Name: "anchored_end", Suf: "$"},
+		{Name: "anchored_noncapture_alt_first", Pre: "^(?:", Suf: "|b)$"},
+		{Name: "group", Pre: "(", Suf: ")"},
+		{Name: "noncapture_group", Pre: "(?:", Suf: ")"},
+		{Name: "fold_contains", Pre: "(?i).*", Suf: ".*"},
+		{Name: "between_some", Pre: ".+", Suf: ".+"},
+		{Name: "some_then_any", Pre: ".+", Suf: ".*"},
+		{Name: "bare_alt", Pre: "a|"},
+		{Name: "class", Pre: "[", Suf: "]"},
+		{Name: "literal_affixes", Pre: "ab", Suf: "cd"},
+		{Name: "escaped_literal", Pre: `a\.`},
+	}
+	out := append([]Ctx{}, base...)
+	for _, c := range base {
+		m := c
+		m.Meta = true
+		if m.Name == "" {
+			m.Name = "quoted"
+		} else {
+			m.Name += "_quoted"
+		}
+		out = append(out, m)
+	}
+	return out
+}()
 
 // plainCtxs: for positions whose value is a plain string: number-, duration- and size-looking values.
 var plainCtxs = []Ctx{
 	idCtx,
-	{"digit_prefix", "5", ""},
-	{"digit_suffix", "", "5"},
-	{"float_prefix", "1.5", ""},
-	{"duration_like", "5", "s"},
-	{"size_like", "10", "KB"},
+	{Name: "digit_prefix", Pre: "5"},
+	{Name: "digit_suffix", Suf: "5"},
+	{Name: "float_prefix", Pre: "1.5"},
+	{Name: "duration_like", Pre: "5", Suf: "s"},
+	{Name: "size_like", Pre: "10", Suf: "KB"},
 }
